@@ -358,20 +358,32 @@ func checkCopyRows(c *Ctx) {
 	})
 	c.Check("R05a", "copyRows|INSERT INTO new (dst…) SELECT src… FROM old", fi.Decl.Pos(), found && okIns, "the copy statement must insert into the new table's destination columns the source expressions selected from the old table, in that argument order")
 	// DropColumn of a surviving column is an error
+	// (in copyRows itself or in a package-local helper it calls with the change list)
 	dropErr := false
-	ast.Inspect(fi.Decl.Body, func(m ast.Node) bool {
-		cc, ok := m.(*ast.CaseClause)
-		if !ok || len(cc.List) != 1 || !typeIs(info.TypeOf(cc.List[0]), pSchema, "DropColumn") {
-			return true
-		}
-		ast.Inspect(cc, func(k ast.Node) bool {
-			if r, ok := k.(*ast.ReturnStmt); ok && len(r.Results) == 2 && !isNilIdent(info, r.Results[1]) {
-				dropErr = true
+	scope := []*FuncInfo{fi}
+	for _, call := range callsIn(fi.Decl.Body, true) {
+		if fn := calleeOf(info, call); fn != nil && fn.Pkg() != nil && fn.Pkg().Path() == pSqlite {
+			if cf := c.FuncInfoOf(fn); cf != nil && cf.Decl.Body != nil {
+				scope = append(scope, cf)
 			}
+		}
+	}
+	for _, sf := range scope {
+		sinfo := sf.Info()
+		ast.Inspect(sf.Decl.Body, func(m ast.Node) bool {
+			cc, ok := m.(*ast.CaseClause)
+			if !ok || len(cc.List) != 1 || !typeIs(sinfo.TypeOf(cc.List[0]), pSchema, "DropColumn") {
+				return true
+			}
+			ast.Inspect(cc, func(k ast.Node) bool {
+				if r, ok := k.(*ast.ReturnStmt); ok && len(r.Results) == 2 && !isNilIdent(sinfo, r.Results[1]) {
+					dropErr = true
+				}
+				return true
+			})
 			return true
 		})
-		return true
-	})
+	}
 	c.Check("R05a", "copyRows|DropColumn of a surviving column is refused", fi.Decl.Pos(), dropErr, "a DropColumn change naming a column of the new table must be an error (the column's values would be silently kept or lost)")
 }
 
